@@ -59,7 +59,7 @@ CHECKS = {
                      "invocation index (capped at 48), asn_encode_to_buffer into exact-size heap buffers of every size 0..n,n+1,n+7, asn_encode_to_new_buffer "
                      "also under allocation failure; invariants on rc, errno, bytes delivered, NULL-on-failure, no crash/abort/hang; success on an invalid "
                      "structure must decode back to an equal value.",
-                note="Structures reachable through BER decoding plus seven walker transformations; sizes sampled above 64 bytes; one fault per call."),
+                note="Structures reachable through BER decoding plus seven walker transformations; fixed modules drive encodings across power-of-two totals, fixed-size strings with wrong lengths, stored DEFAULTs; sizes sampled above 64 bytes; one fault per call."),
     "C12": dict(level="exploration", engine="compiler-monitor", ref="DESIGN.md 4/C12",
                 technique="history monitor over repeated / permuted / print-reparse runs of the ASan-built asn1c with byte comparison of outputs",
                 text="The asn1c of the current tree is run on generated single- and multi-module sets and on the shipped modern-syntax corpus: twice (three times) under "
@@ -89,8 +89,10 @@ CHECKS = {
                 technique="differential monitor: decoders fed with model-generated alternative valid encodings; result compared with the reference DER of the value",
                 text="For each generated value the reference model emits its DER encoding and members of the BER variant families (long-form lengths, indefinite lengths, "
                      "constructed/nested strings, SET and SET OF permutations, explicit DEFAULT values, non-FF TRUE, unknown extension additions) and the reference "
-                     "UPER/OER/XER encodings; every one must decode RC_OK, consume everything and re-encode to the reference DER.",
-                note="Only encodings the standards make valid are generated; variants sampled (3/12 per family and value); families hitting the two listed BER findings are a 15% minority."),
+                     "UPER/OER encodings (also as sent by a 'version 2' peer: unknown extension additions in several presence patterns); XER: value-preserving "
+                     "rewritings of the library's own BASIC/CANONICAL-XER documents (white-space and comments between elements, empty-element tags, white-space inside "
+                     "tags, prolog); every one must decode RC_OK, consume everything and re-encode to the reference DER. Fixed shapes modules (SH, SH2) are included.",
+                note="Only encodings the standards make valid are generated; there is no independent XER encoder (rewritings of the library's own, well-formed documents only); variants sampled (3/12 per family and value)."),
     "C06": dict(level="exploration", engine="vdriver", ref="DESIGN.md 4/C06",
                 technique="metamorphic monitor: canonical encoder outputs of equivalent in-memory representations compared byte for byte (ASan-watched)",
                 text="The structure decoded from the reference DER is the base; equivalent representations are made in memory by a descriptor-driven walker (SET OF "
@@ -103,14 +105,14 @@ CHECKS = {
                 text="Generated modules with non-extensible value/SIZE/FROM constraints at every depth; valid values, single-fault mutants (one constraint violated at one "
                      "position, every gap and both bounds) and multi-fault mutants enter by BER; asn_check_constraints is called with error buffers of 0/1/2/16/128 bytes "
                      "and NULL; the verdict must equal the model's, must not depend on the buffer, and a failure message must be terminated, fit, and name a type.",
-                note="Extensible constraints, WITH COMPONENTS, PATTERN, CONTAINING not generated; BMPString U+FFFE/U+FFFF values are not judged; sampled values."),
+                note="Plus a fixed module of constraint shapes (unions/intersections/EXCEPT at type-width boundaries, constrained collections by reference) and error buffers of exactly the message length +-1. Extensible constraints, WITH COMPONENTS, PATTERN, CONTAINING not generated; BMPString U+FFFE/U+FFFF values are not judged; sampled values."),
     "C09": dict(level="exploration", engine="vdriver", ref="DESIGN.md 4/C09",
                 technique="reference-model monitor: UPER/OER bytes and asn1c -print-constraints ranges of systematically enumerated constraint trees vs the X.691 10.3 / X.696 8.2 effective constraint; equivalence classes of types compared with each other",
                 text="Every constraint tree of depth <= 2 over a small universe (INTEGER values, SIZE of OCTET/BIT/IA5 strings and SEQUENCE OF), with and without extension "
                      "marker and additions, serial application and reference chains, random trees over 64-bit/16K/64K boundaries; values at and around every bound enter "
                      "by BER, are encoded in UPER and OER by the generated codecs (ASan build) and compared with the reference encoders; own output must decode back; "
                      "printed PER-/OER-visible ranges must have the reference bounds and extensibility; types with equal effective constraints must produce equal bytes.",
-                note="quick runs a seed-dependent slice of the tree space, thorough all of it; values are sampled around the bounds, not enumerated; values in holes of an extensible root are not judged."),
+                note="Also sampled depth-3 trees and contained subtypes (INCLUDES); quick runs a seed-dependent slice of the depth-2 tree space, thorough all of it; values are sampled around the bounds, not enumerated; values in holes of an extensible root are not judged."),
     "C13": dict(level="exploration", engine="vdriver", ref="DESIGN.md 4/C13",
                 technique="differential monitor: the same (module, value) script run by drivers generated under different asn1c option sets; event logs (rc, bytes) compared column by column with the default build's (ASan-watched)",
                 text="One module is generated under subsets of {-fwide-types, -fcompound-names, -findirect-choice, -fno-include-deps, -fincludes-quoted, -fno-constraints} "
